@@ -50,6 +50,14 @@ func c56(c *Ctx) {
 		for _, st := range timerSel.States {
 			c.Expect(taf(st.Chan) || CallRes(CalleeX("context", "Context.Done"), 0)(st.Chan), timerSel, f, "pacing-wait-ends-only-on-timer-or-shutdown", "the wait between lookups can be ended by something other than its timer or shutdown (minimum interval / backoff not honoured)")
 		}
+		// the outcome of the lookup goes to the channel on the matching arm: the state only after a successful lookup, the error only after a failed one
+		lerr := ExtractOf(func(v ssa.Value) bool { return v == lk.Value() }, 1)
+		us := one(c, "UpdateState call", callsIn(f, Callee("resolver", "ClientConn.UpdateState")))
+		re := one(c, "ReportError call", callsIn(f, Callee("resolver", "ClientConn.ReportError")))
+		c.MustFact(us, "state-emitted-only-after-a-successful-lookup", IsNil(lerr))
+		c.MustFact(re, "error-reported-only-after-a-failed-lookup", NotNil(lerr))
+		c.ArgIs(re, 0, "reports-the-lookup-error", lerr)
+		c.Expect(DataDep(ExtractOf(func(v ssa.Value) bool { return v == lk.Value() }, 0))(us.Common().Args[0]), us, f, "emits-the-looked-up-state", "the emitted state is not the lookup's result")
 		q := pathQuery{Fn: f, Starts: []ssa.Instruction{lk}, Barrier: func(in ssa.Instruction) bool { return in == ssa.Instruction(timerSel) }, Target: func(in ssa.Instruction) bool { return in == ssa.Instruction(lk) }}
 		c.MustPass("timer-wait-between-lookups", q, lk)
 		upd := CallRes(Callee("resolver", "ClientConn.UpdateState"), 0)
@@ -141,6 +149,71 @@ func c56(c *Ctx) {
 			}
 		}
 		c.Expect(okLocal, nil, f, "empty-host-is-localhost", "an empty host is not replaced by localhost")
+		// per success return: which parse produced the result, and under which outcome
+		pa := CalleeX("net/netip", "ParseAddr")
+		sp := callsIn(f, CalleeX("net", "SplitHostPort"))
+		if c.Expect(len(sp) == 2, nil, f, "two-splits", "expected a split of the target and a split of target:defaultPort") {
+			var plain, deflt ssa.CallInstruction
+			for _, ci := range sp {
+				if ParamV("target")(ci.Common().Args[0]) {
+					plain = ci
+				} else {
+					deflt = ci
+				}
+			}
+			if c.Expect(plain != nil && deflt != nil, nil, f, "split-arguments", "the two splits are not of target and of target + ':' + defaultPort") {
+				c.ArgIs(deflt, 0, "default-port-appended", BinOpV(token.ADD, BinOpV(token.ADD, ParamV("target"), ConstStr(":")), ParamV("defaultPort")))
+				ex := func(ci ssa.CallInstruction, i int) VM {
+					return ExtractOf(func(v ssa.Value) bool { return v == ci.Value() }, i)
+				}
+				nOK := 0
+				for _, r := range returnsWhere(f, func(r *ssa.Return) bool { return ConstNil(r.Results[2]) }) {
+					nOK++
+					h, p := r.Results[0], r.Results[1]
+					switch {
+					case ParamV("target")(h):
+						c.MustFact(r, "bare-address:only-if-it-parses-as-an-IP", IsNil(CallRes(pa, 1)))
+						c.Expect(ParamV("defaultPort")(p), r, f, "bare-address:default-port", "a bare IP address does not get the default port")
+						c.Unreachable(r, "empty-target-rejected", Cmp(ParamV("target"), token.EQL, ConstStr("")))
+					case ex(plain, 1)(p):
+						c.MustFact(r, "host:port:only-if-the-split-succeeded", IsNil(ex(plain, 2)))
+						c.MustFact(r, "host:port:port-not-empty", Cmp(ex(plain, 1), token.NEQ, ConstStr("")))
+						if ph, ok := h.(*ssa.Phi); ok {
+							for i, e := range ph.Edges {
+								pr := ph.Block().Preds[i]
+								fs := append(append([]Fact(nil), FactsAtBlock(pr)...), edgeOnlyFacts(pr, ph.Block())...)
+								if ConstStr("localhost")(e) {
+									_, ok := hasFact(fs, Cmp(ex(plain, 0), token.EQL, ConstStr("")))
+									c.Expect(ok, r, f, "localhost-only-for-an-empty-host", "localhost replaces a non-empty host")
+								} else {
+									_, ok := hasFact(fs, Cmp(ex(plain, 0), token.NEQ, ConstStr("")))
+									c.Expect(ok && ex(plain, 0)(e), r, f, "host-kept-when-present", "an empty host is returned as is, or the host is not the split's host")
+								}
+							}
+						} else {
+							c.Expect(false, r, f, "host-or-localhost", "the host:port arm does not choose between the split's host and localhost")
+						}
+					case ex(deflt, 1)(p):
+						c.MustFact(r, "no-port:only-if-the-split-with-default-port-succeeded", IsNil(ex(deflt, 2)))
+						c.Expect(ex(deflt, 0)(h), r, f, "no-port:host-of-the-same-split", "host and port come from different splits")
+					default:
+						c.Expect(false, r, f, "success-shape", "unreviewed success return of parseTarget")
+					}
+				}
+				c.Expect(nOK == 3, nil, f, "three-success-forms", "expected three success forms (bare IP, host:port, host without port)")
+			}
+		}
+		missing := GlobalLoad(c.konst("internal/resolver/dns/internal", "ErrMissingAddr"))
+		for _, r := range returnsOf(f) {
+			if r.Block() != f.Recover && missing(strip(r.Results[2])) {
+				c.MustFact(r, "missing-address-only-for-empty-target", Cmp(ParamV("target"), token.EQL, ConstStr("")))
+			}
+		}
+		nE := 0
+		for _, fn := range []string{"formatIP"} {
+			nE += c.ErrorsPropagate(c.fn(dnsp, fn), fn, nil)
+		}
+		c.Expect(nE >= 1, nil, nil, "error-sites", "fewer tested helper errors than on the reviewed tree")
 		g := c.fn(dnsp, "formatIP")
 		is4 := CallRes(CalleeX("net/netip", "Addr.Is4"), 0)
 		for _, r := range returnsOf(g) {
